@@ -121,7 +121,8 @@ def quotedLoop (fuel : Nat) (b : Buf) (delim : Byte) (start writeCursor quoteCou
           if quoteCount % 2 != 0 then .ok (b.slice start writeCursor, false, none, b) else keep b quoteCount
         else if ch == LF then
           if quoteCount % 2 != 0 then .ok (b.slice start writeCursor, true, none, b) else keep b quoteCount
-        else if ch == CR then quotedLoop fuel b delim start writeCursor quoteCount
+        else if ch == CR then
+          if quoteCount % 2 != 0 then quotedLoop fuel b delim start writeCursor quoteCount else keep b quoteCount
         else if ch == QUOTE then
           let qc := quoteCount + 1
           if qc % 2 == 1 then quotedLoop fuel b delim start writeCursor qc else keep b qc
@@ -130,7 +131,11 @@ def quotedLoop (fuel : Nat) (b : Buf) (delim : Byte) (start writeCursor quoteCou
     if b.cursor + 1 ≥ b.len then
       let (b, e) := b.more
       match e with
-      | some err => .ok (b.slice start writeCursor, true, some err, b)
+      | some err =>
+        if err == .eof && quoteCount % 2 != 0 && b.cursor < b.len && b.data[b.cursor]! == delim then
+          let b := { b with cursor := b.cursor + 1 }
+          .ok (b.slice start writeCursor, false, none, b)
+        else .ok (b.slice start writeCursor, true, some err, b)
       | none => quotedLoop fuel b delim start writeCursor quoteCount   -- `for cursor+1 >= len { more() }`
     else body b
 
@@ -155,7 +160,10 @@ def Fields.next (fuel : Nat) (fs : Fields) : Out (Fields × Bool) :=
     let (b, e) := fs.buf.more
     let fs := { fs with buf := b }
     match e with
-    | some err => .ok ({ fs with err := some err }, false)
+    | some err =>
+      if err == .eof && fs.fieldStart > 0 then
+        .ok ({ fs with err := some err, field := fs.buf.slice fs.fieldStart fs.fieldStart, hitEOL := true }, true)
+      else .ok ({ fs with err := some err }, false)
     | none => go fs
   else go fs
 
